@@ -287,6 +287,9 @@ impl World for Experiment {
         bump(&mut out.counters, "fault:schedule (non-default interleavings explored)", 1);
         bump(&mut out.counters, "scheduler steps", pr.scheduler_steps);
         bump(&mut out.counters, "context switches", pr.context_switches);
+        if pr.stalls > 0 {
+            bump(&mut out.counters, "fault:worker-stalled (descheduled for 20..400 scheduling points)", pr.stalls);
+        }
         bump(&mut out.counters, &format!("experiments with {} workers", c.sched.workers), 1);
         let exp = match pr.result {
             Ok(e) => e,
